@@ -200,10 +200,12 @@ class PolyEnv:
     the canonical form of their arguments, so equal arguments give equal atoms.
     """
 
-    def __init__(self, names: dict[str, Poly] | None = None, atom_hook=None, alias: dict[str, str] | None = None):
+    def __init__(self, names: dict[str, Poly] | None = None, atom_hook=None, alias: dict[str, str] | None = None,
+                 mod_transparent: bool = False):
         self.names = dict(names or {})
         self.atom_hook = atom_hook
         self.alias = dict(alias or {})
+        self.mod_transparent = mod_transparent
 
     def poly(self, e: ast.AST) -> Poly:
         if isinstance(e, ast.Constant):
@@ -249,6 +251,8 @@ class PolyEnv:
                 if r.is_const() and r.const_value() != 0:
                     return self.poly(e.left).scale(1 / r.const_value())
                 return self.atom(e)
+            if isinstance(e.op, ast.Mod) and self.mod_transparent:
+                return self.poly(e.left)
             if isinstance(e.op, ast.LShift):
                 r = self.poly(e.right)
                 if r.is_const() and r.const_value().denominator == 1 and 0 <= r.const_value() < 64:
